@@ -44,6 +44,9 @@ type Conn struct {
 	in          chan *Line
 	out         chan string
 	connected   bool
+	// Incremented for every established connection, so that goroutines
+	// of a finished connection cannot close the one that follows it.
+	generation uint64
 
 	// Capabilities supported by the server
 	supportedCaps *capSet
@@ -431,6 +434,7 @@ func (conn *Conn) internalConnect(ctx context.Context) error {
 		conn.sock = s
 	}
 
+	conn.generation++
 	conn.postConnect(ctx, true)
 	conn.connected = true
 	return nil
@@ -486,6 +490,7 @@ func hasPort(s string) bool {
 // It shuttles data from the output channel to write(), and is killed
 // when the context is cancelled.
 func (conn *Conn) send(ctx context.Context) {
+	gen := conn.generation
 	for {
 		select {
 		case line := <-conn.out:
@@ -493,7 +498,7 @@ func (conn *Conn) send(ctx context.Context) {
 				logging.Error("irc.send(): %s", err.Error())
 				// We can't defer this, because Close() waits for it.
 				conn.wg.Done()
-				conn.Close()
+				conn.close(gen)
 				return
 			}
 		case <-ctx.Done():
@@ -508,6 +513,7 @@ func (conn *Conn) send(ctx context.Context) {
 // It receives "\r\n" terminated lines from the server, parses them into
 // Lines, and sends them to the input channel.
 func (conn *Conn) recv() {
+	gen := conn.generation
 	for {
 		s, err := conn.io.ReadString('\n')
 		if err != nil {
@@ -516,7 +522,7 @@ func (conn *Conn) recv() {
 			}
 			// We can't defer this, because Close() waits for it.
 			conn.wg.Done()
-			conn.Close()
+			conn.close(gen)
 			return
 		}
 		s = strings.Trim(s, "\r\n")
@@ -552,6 +558,7 @@ func (conn *Conn) ping(ctx context.Context) {
 // It pulls Lines from the input channel and dispatches them to any
 // handlers that have been registered for that IRC verb.
 func (conn *Conn) runLoop(ctx context.Context) {
+	gen := conn.generation
 	for {
 		select {
 		case line := <-conn.in:
@@ -562,7 +569,7 @@ func (conn *Conn) runLoop(ctx context.Context) {
 
 			// We can't defer this, because Close() waits for it.
 			conn.wg.Done()
-			conn.Close()
+			conn.close(gen)
 			return
 		}
 	}
@@ -616,10 +623,21 @@ func (conn *Conn) rateLimit(chars int) time.Duration {
 // the sending or receiving goroutines encounter an error.
 // It may also be used to forcibly shut down the connection to the server.
 func (conn *Conn) Close() error {
+	conn.mu.RLock()
+	gen := conn.generation
+	conn.mu.RUnlock()
+	return conn.close(gen)
+}
+
+// close tears down the connection with the given generation, if it is still
+// the current one. The goroutines of a connection call this when they exit,
+// which may be after Close() has finished and the client has reconnected:
+// they must not tear down the new connection.
+func (conn *Conn) close(gen uint64) error {
 	// Guard against double-call of Close() if we get an error in send()
 	// as calling sock.Close() will cause recv() to receive EOF in readstring()
 	conn.mu.Lock()
-	if !conn.connected {
+	if !conn.connected || gen != conn.generation {
 		conn.mu.Unlock()
 		return nil
 	}
